@@ -354,7 +354,12 @@ func (sw *scanWriter) pushObject(opts ScanWriterParams) (keepGoing bool,
 	}
 	sw.count++
 	if sw.output == outputCount {
-		return sw.count < sw.limit, nil
+		if sw.count >= sw.limit {
+			// a full page: report a cursor, more may remain
+			sw.hitLimit = true
+			return false, nil
+		}
+		return true, nil
 	}
 	if opts.clip != nil {
 		// create a newly clipped object
